@@ -359,6 +359,10 @@ func (c *pingRes) ID() uint32               { return c.id }
 func (c *pingRes) messageType() messageType { return messageTypePingRes }
 
 func callReqSpan(f *Frame) Span {
+	if int(f.Header.PayloadSize()) < _spanIndex+_spanLength {
+		// The frame is too short to contain a span; don't read bytes beyond its declared size.
+		return Span{}
+	}
 	rdr := typed.NewReadBuffer(f.Payload[_spanIndex : _spanIndex+_spanLength])
 	var s Span
 	s.read(rdr)
